@@ -27,6 +27,7 @@ func init() {
 			{ID: "C16.6", Desc: "goroutine hand-off through channels only", Run: ruleC16_6, MinSites: 2},
 			{ID: "C16.7", Desc: "in-place mutation only on per-request objects", Run: ruleC16_7, MinSites: 1},
 			{ID: "C16.8", Desc: "the memory backend never hands out or keeps a caller-visible buffer", Run: func(c *Ctx) { ruleC14_2(c); renameRule(c, "C14.2", "C16.8") }, MinSites: 2},
+			{ID: "C16.9", Desc: "no slice of a pooled object's storage outlives its return to the pool", Run: ruleC16_9, MinSites: 0},
 		},
 	})
 }
@@ -591,5 +592,61 @@ func ruleC16_7(c *Ctx) {
 		} else {
 			c.Fail("C16.7", "index-decoded-per-call", "the variant index is decoded into a fresh local on every call", c.P.ShortName(ri)+": decode target is not a local of the decoder")
 		}
+	}
+}
+
+// ruleC16_9: an object handed back to a sync.Pool may be taken and overwritten by any concurrent RoundTrip at once. In
+// a function that puts an object back (directly or deferred), every []byte it returns must own its storage (fresh
+// allocation or copy), not be a view obtained from the pooled object.
+func ruleC16_9(c *Ctx) {
+	desc := "a function that returns an object to a sync.Pool does not return a slice that shares the object's storage"
+	n := 0
+	var fns []*ssa.Function
+	for _, fn := range c.P.RepoFuncs {
+		if isTestOnly(c, fn) || len(fn.Blocks) == 0 {
+			continue
+		}
+		fns = append(fns, fn)
+	}
+	for _, fn := range fns {
+		var pooled []ssa.Value
+		instrsOf(fn, func(in ssa.Instruction) {
+			if cc := callOf(in); cc != nil && callIsMethod(cc, "sync", "Pool", "Put") {
+				_, args := recvAndArgs(cc)
+				pooled = append(pooled, args[0])
+			}
+		})
+		if len(pooled) == 0 {
+			continue
+		}
+		n++
+		bad := ""
+		instrsOf(fn, func(in ssa.Instruction) {
+			r, ok := in.(*ssa.Return)
+			if !ok {
+				return
+			}
+			for i := range r.Results {
+				v := c.An.RetVal(r, i)
+				sl, isSl := v.Type().Underlying().(*types.Slice)
+				if !isSl || !isBasicKind(sl.Elem(), types.Byte) && !isBasicKind(sl.Elem(), types.Uint8) {
+					continue
+				}
+				for _, o := range c.sliceBacking(v) {
+					if o != "fresh" && o != "nil" {
+						bad = fmt.Sprintf("%s: returned slice has backing `%s`", c.P.InstrPos(r), o)
+					}
+				}
+			}
+		})
+		where := c.P.ShortName(fn)
+		if bad != "" {
+			c.Fail("C16.9", "pooled-storage-escapes fn="+where, desc, bad+" while the object goes back to the pool; a second RoundTrip marshalling another response overwrites the bytes still being written to the store, so one URI's entry holds another resource's body")
+		} else {
+			c.Pass("C16.9", "pooled-storage-escapes fn="+where, desc, where)
+		}
+	}
+	if n == 0 {
+		c.Pass("C16.9", "no-pool", desc, fmt.Sprintf("%d repo functions scanned: no sync.Pool.Put", len(fns)))
 	}
 }
